@@ -336,6 +336,7 @@ def run_api_prop(pid, tier, seed, extra_corpus=()):
     hit = hits[0] if hits else None
     os.environ["API_SCRIPT_TIMEOUT_MS"] = "2000"
     seen_sigs = set()
+    unreproduced = []
     def add(kind, k, msg, pred):
         if k < len(corp):
             s = scripts[k]; sig = "corpus/api/" + corp[k][0]       # a corpus replay is reported as it is
@@ -353,7 +354,15 @@ def run_api_prop(pid, tier, seed, extra_corpus=()):
             sig = "class:" + msg[7:msg.index("]")]          # a finding identified by its mechanism (see known-findings.json)
         if sig in seen_sigs: return
         seen_sigs.add(sig)
+        # every reported input is run once more on its own, in a fresh process and with a long hang budget: the library
+        # is deterministic on one thread, so a defect shows again; what does not (a script starved past its time budget
+        # on a loaded machine) is counted, not reported
+        os.environ["API_SCRIPT_TIMEOUT_MS"] = "30000"
         r, b, _, _ = compare([s])
+        os.environ["API_SCRIPT_TIMEOUT_MS"] = "2000"
+        again = (impl_predicates(pid, s, r[0][0]) is not None) if kind.startswith("implementation-only") else bool(b)
+        if not again:
+            unreproduced.append(sig); return
         detail = ""
         if b: detail = f"\n# at `{s[b[0][1]]}`: implementation `{b[0][2]}`, specification S `{b[0][3]}`"
         viols.append({"what": msg, "found_input": True, "signature": sig,
@@ -371,7 +380,7 @@ def run_api_prop(pid, tier, seed, extra_corpus=()):
     os.environ.pop("API_SCRIPT_TIMEOUT_MS", None)
     st = stats(gen)
     nontriv = len({tuple(s) for s in gen if any(l.startswith("send") for l in s) and any(l.startswith("listen") for l in s)})
-    cov = {"evaluations": len(scripts), "distinct_nontrivial": nontriv,
+    cov = {"not_reproduced_on_rerun": len(unreproduced), "evaluations": len(scripts), "distinct_nontrivial": nontriv,
            "exhaustive_small_scope": {"programs": len(ss), "definitions_per_program": ssk,
                                       "rule": "EVERY program of that many definitions over 20 primitives and every choice of operands among the names defined so far, on a base of a stream sink, "
                                               "a cell sink and a coalescing sink, a listener on everything (one registered late), six transactions (single, simultaneous, repeated sends), cells sampled after each"},
